@@ -861,6 +861,150 @@ fn corpus_scan_specs() -> Vec<Vec<RuleSpec>> {
     ]
 }
 
+
+// ---------------------------------------------------------------- KReSet: `or` of `matches`
+/// kinds of left operands of `matches`
+#[derive(Clone, Debug, PartialEq)]
+enum Lhs { Global(usize), WithId(usize), LoopVar, Field(&'static str), Call(String), Lit(String) }
+
+fn lhs_src(l: &Lhs) -> String {
+    match l { Lhs::Global(i) => format!("gs{}", i), Lhs::WithId(j) => format!("w{}", j), Lhs::LoopVar => "lv".into(),
+              Lhs::Field(f) => format!("test_proto2.{}", f), Lhs::Call(c) => c.clone(), Lhs::Lit(s) => format!("\"{}\"", s) }
+}
+
+fn gen_or_matches_case(rng: &mut Rng, idx: usize, out: &mut Out) {
+    let n_ops = 2 + rng.below(5) as usize;
+    // wrapper around the `or`: none, `with`, `for any lv in (..)`
+    let wrapper = rng.below(4);
+    let n_with = if wrapper == 1 { 1 + rng.below(3) as usize } else { 0 };
+    // values of the globals in this scan: distinct tokens
+    let toks = ["alfa", "brav", "char", "delt", "echo", "foxt"];
+    let mut gvals: Vec<String> = (0..4).map(|i| format!("{}{}", toks[i], rng.below(3))).collect();
+    // with identifiers are bound to globals, module fields or literals
+    let with_defs: Vec<(String, String)> = (0..n_with).map(|j| {
+        let (e, v) = match rng.below(4) { 0 => ("test_proto2.string_foo".to_string(), "foo".to_string()), 1 => ("test_proto2.string_bar".to_string(), "bar".to_string()),
+                                          2 => { let t = format!("lit{}", j); (format!("\"{}\"", t), t) } _ => { let g = rng.below(4) as usize; (format!("gs{}", g), String::new() + &format!("@g{}", g)) } };
+        (e, v)
+    }).collect();
+    let loop_items: Vec<(String, String)> = if wrapper == 2 {
+        (0..2 + rng.below(2)).map(|k| match rng.below(3) { 0 => { let g = rng.below(4) as usize; (format!("gs{}", g), format!("@g{}", g)) } 1 => ("test_proto2.string_bar".to_string(), "bar".to_string()), _ => { let t = format!("item{}", k); (format!("\"{}\"", t), t) } }).collect()
+    } else { vec![] };
+    let mut ops: Vec<(Lhs, String)> = vec![]; // (left operand, regexp)
+    let pick_lhs = |rng: &mut Rng| -> Lhs {
+        loop {
+            match rng.below(9) {
+                0..=2 => return Lhs::Global(rng.below(if rng.chance(1, 2) { 2 } else { 4 }) as usize),
+                3 if n_with > 0 => return Lhs::WithId(rng.below(n_with as u64) as usize),
+                4 if wrapper == 2 => return Lhs::LoopVar,
+                5 => return Lhs::Field(if rng.chance(1, 2) { "string_foo" } else { "string_bar" }),
+                6 => return Lhs::Call(match rng.below(3) { 0 => "test_proto2.get_foo()".to_string(), 1 => format!("test_proto2.uppercase(gs{})", rng.below(4)), _ => format!("test_proto2.head({})", 2 + rng.below(3)) }),
+                7 => return Lhs::Lit(format!("const{}", rng.below(3))),
+                _ => if rng.chance(1, 3) { return Lhs::Global(rng.below(4) as usize) },
+            }
+        }
+    };
+    // plain identifiers on the left are what a careless key cannot tell apart: make them frequent
+    for _ in 0..n_ops {
+        let l = pick_lhs(rng);
+        // the regexp is aimed at one of the values that occur in this scan (or at nothing)
+        let target = match rng.below(8) { 0 => "foo".to_string(), 1 => "bar".to_string(), 2 => "FOXT".to_string(), 3 => "nothing".to_string(), 4 => "const1".to_string(), 5 => "AB".to_string(), _ => gvals[rng.below(4) as usize].clone() };
+        let re = match rng.below(3) { 0 => format!("/^{}/", target), 1 => format!("/{}$/", target), _ => format!("/^{}$/i", target) };
+        ops.push((l, re));
+    }
+    // make "only a later operand is true" frequent: give the first operand's global a value its regexp rejects
+    if rng.chance(1, 2) { if let Lhs::Global(g) = ops[0].0 { gvals[g] = format!("zz{}", rng.below(9)); } }
+    let wrap = |body: &str| -> String {
+        match wrapper {
+            1 => format!("with {} : ({})", with_defs.iter().enumerate().map(|(j, (e, _))| format!("w{} = {}", j, e)).collect::<Vec<_>>().join(", "), body),
+            2 => format!("for any lv in ({}) : ({})", loop_items.iter().map(|(e, _)| e.clone()).collect::<Vec<_>>().join(", "), body),
+            _ => body.to_string(),
+        }
+    };
+    let op_src = |(l, re): &(Lhs, String)| format!("{} matches {}", lhs_src(l), re);
+    let main_cond = wrap(&ops.iter().map(op_src).collect::<Vec<_>>().join(" or "));
+    let mut c = yara_x::Compiler::new();
+    for i in 0..4 { let _ = c.define_global(&format!("gs{}", i), ""); }
+    let mut ok = add_rule(&mut c, &format!("import \"test_proto2\" rule r_main {{ condition: {} }}", main_cond)) == CStat::Ok;
+    for (i, o) in ops.iter().enumerate() { ok &= add_rule(&mut c, &format!("import \"test_proto2\" rule r_op{} {{ condition: {} }}", i, wrap(&op_src(o)))) == CStat::Ok; }
+    if !ok { out.stats.inc("reset:rejected(generator)"); out.dump_line(format!("reset {} rejected :: {}", idx, main_cond)); return; }
+    let rules = c.build();
+    let data: Vec<u8> = b"ABCDEF".to_vec();
+    let v = catch(AssertUnwindSafe(|| {
+        let mut s = yara_x::Scanner::new(&rules);
+        for i in 0..4 { s.set_global(&format!("gs{}", i), gvals[i].as_str()).unwrap(); }
+        let r = s.scan(&data).unwrap();
+        r.matching_rules().map(|r| r.identifier().to_string()).collect::<HashSet<_>>()
+    })).unwrap_or_default();
+    let verdict = v.contains("r_main");
+    let alone: Vec<bool> = (0..ops.len()).map(|i| v.contains(&format!("r_op{}", i))).collect();
+    // identity of the left operand: same source text = same expression
+    let mut ids: Vec<usize> = vec![]; let mut seen: Vec<String> = vec![];
+    for (l, _) in &ops { let t = lhs_src(l); let id = seen.iter().position(|x| *x == t).unwrap_or_else(|| { seen.push(t.clone()); seen.len() - 1 }); ids.push(id); }
+    let plain = ops.iter().filter(|(l, _)| matches!(l, Lhs::Global(_) | Lhs::WithId(_) | Lhs::LoopVar | Lhs::Lit(_))).count();
+    out.stats.inc(&format!("reset:distinct_left_operands:{}", seen.len().min(4)));
+    if plain >= 2 { out.stats.inc("reset:two_or_more_plain_left_operands"); }
+    if alone.iter().any(|b| *b) { out.stats.inc("reset:some_operand_true"); }
+    if !alone.first().copied().unwrap_or(false) && alone.iter().skip(1).any(|b| *b) { out.stats.inc("reset:only_a_later_operand_true"); }
+    let class = if verdict != alone.iter().any(|b| *b) { if plain >= 2 { "regexp-set:or-differs-from-operands:plain-left-operands" } else { "regexp-set:or-differs-from-operands" } } else { "" };
+    let case = format!("KReSet {} {} {}", coq_list(&ids, |i| coq_nat(*i)), coq_list(&alone, |b| coq_bool(*b).to_string()), coq_bool(verdict));
+    let replay = format!("{{\"kind\":\"reset\",\"index\":{},\"class\":\"{}\",\"condition\":{},\"globals\":{},\"data_hex\":\"{}\",\"verdict\":{},\"operands_alone\":{}}}",
+        idx, class, json_str(&main_cond), json_str(&format!("{:?}", gvals)), hex(&data), verdict, json_str(&format!("{:?}", alone)));
+    out.dump_line(format!("reset {} v={} alone={:?} :: {}", idx, verdict as u8, alone, main_cond));
+    out.push(case, replay, Some(format!("reset:{}", main_cond)));
+}
+
+// ---------------------------------------------------------------- KHoist: loops whose bodies own variables
+fn gen_hoist_case(rng: &mut Rng, idx: usize, out: &mut Out) {
+    // outer loop: range, tuple, map; `v` is the integer the body works with
+    let (outer_head, v) = match rng.below(4) {
+        0 => (format!("for any i in (0..{})", 6 + rng.below(6)), "i"),
+        1 => ("for any i in (1, 3, 5, 7)".to_string(), "i"),
+        2 => ("for any k, mv in test_proto2.map_int64_int64".to_string(), "(mv - 995)"),   // {100: 1000} -> 5
+        _ => ("for any i in test_proto2.array_int64".to_string(), "(i \\ 2)"),            // 1, 10, 100 -> 0, 5, 50
+    };
+    // k hoistable invariants
+    let k = rng.below(4) as usize;
+    let invs: Vec<String> = (0..k).map(|_| match rng.below(5) { 0 => "uint8(0) == 0x2e".to_string(), 1 => "uint8(1) == 0x2e".to_string(), 2 => "filesize > 4".to_string(),
+                                                             3 => "uint16(2) == 0x2e2e".to_string(), _ => format!("uint8({}) != 0x41", rng.below(4)) }).collect();
+    // one nested statement that owns variables and uses the outer loop variable
+    let kind = rng.below(9);
+    let nested = match kind {
+        0 => format!("for any j in (0..{v}) : (j + 1 == {v})"),
+        1 => format!("for any x in ({v}, {v} + 1) : (x == 5)"),
+        2 => format!("for any k2, v2 in test_proto2.map_int64_int64 : (v2 - 995 == {v})"),
+        3 => format!("for any of ($a, $b) : ($ at {v})"),
+        4 => format!("any of ($a, $b) in ({v}..{v})"),
+        5 => format!("1 of ($a, $b) at {v}"),
+        6 => format!("with t = {v} * 2 : (t == 10)"),
+        7 => format!("2 of ({v} == 5, uint8(0) == 0x2e, {v} > 3)"),
+        _ => format!("for all j in (1..2) : (any of ($a, $b) in ({v}..{v} + j))"),
+    };
+    let tail = match rng.below(3) { 0 => format!(" and {} == 5", v), 1 => format!(" and {} >= 0", v), _ => String::new() };
+    let mut parts = invs.clone();
+    let pos = rng.below(parts.len() as u64 + 1) as usize;
+    parts.insert(pos, nested.clone());
+    let cond = format!("{} : ({}{})", outer_head, parts.join(" and "), tail);
+    let src = format!("import \"test_proto2\" rule h {{ strings: $a = \"aaaa\" $b = \"bbbb\" condition: {} and ($a or $b or true) }}", cond);
+    let mut built = vec![];
+    for opt in [false, true] {
+        let mut c = yara_x::Compiler::new(); c.condition_optimization(opt);
+        if add_rule(&mut c, &src) != CStat::Ok { out.stats.inc("hoist:rejected(generator)"); out.dump_line(format!("hoist {} rejected :: {}", idx, cond)); return; }
+        built.push(c.build());
+    }
+    let bufs: Vec<Vec<u8>> = vec![b".....aaaa.....".to_vec(), b".....bbbb.....".to_vec(), b"....aaaa......".to_vec(), b"..aaaa.bbbb".to_vec(), b"A....aaaa".to_vec(), b"..".to_vec()];
+    let vs: Vec<Vec<bool>> = built.iter().map(|r| bufs.iter().map(|b| verdict_set(r, b, false).map(|s| s.contains("h")).unwrap_or(false)).collect()).collect();
+    let names = ["for-in-range", "for-in-tuple", "for-in-map", "for-of", "of-in-range", "of-at", "with", "of-expr-tuple", "for-in+of"];
+    out.stats.inc(&format!("hoist:nested:{}", names[kind as usize]));
+    out.stats.inc(&format!("hoist:invariants:{}", k));
+    if vs[0].iter().any(|b| *b) { out.stats.inc("hoist:true_on_some_buffer"); }
+    let class = if vs[0] != vs[1] { format!("hoisting:verdict-differs:{}", names[kind as usize]) } else { String::new() };
+    let case = format!("KHoist {} {}", coq_list(&vs[0], |b| coq_bool(*b).to_string()), coq_list(&vs[1], |b| coq_bool(*b).to_string()));
+    let replay = format!("{{\"kind\":\"hoist\",\"index\":{},\"class\":\"{}\",\"rule\":{},\"buffers_hex\":{},\"unoptimised\":{},\"optimised\":{}}}", idx, class, json_str(&src),
+        json_str(&bufs.iter().map(|b| hex(b)).collect::<Vec<_>>().join(",")), json_str(&format!("{:?}", vs[0])), json_str(&format!("{:?}", vs[1])));
+    out.dump_line(format!("hoist {} u={:?} :: {}", idx, vs[0], cond));
+    out.push(case, replay, Some(format!("hoist:{}", cond)));
+}
+
 // ---------------------------------------------------------------- main
 fn main() { let args: Vec<String> = std::env::args().skip(1).collect(); std::process::exit(run(&args)); }
 
@@ -872,7 +1016,7 @@ fn run(args: &[String]) -> i32 {
     let out_dir = arg_val(args, "--out").expect("--out");
     let dump_path = arg_val(args, "--dump");
     let coq = !arg_flag(args, "--dump-only");
-    let prelude = "From Coq Require Import List NArith ZArith Bool String.\nFrom YV Require Import Opt.Fold Gen.BoundsGen Opt.Bounds Opt.FastScan Opt.OptCheck.\nImport ListNotations.\nLocal Open Scope string_scope.\n";
+    let prelude = "From Coq Require Import List NArith ZArith Bool String.\nFrom YV Require Import Opt.Fold Gen.BoundsGen Opt.Bounds Opt.FastScan Opt.Hoist Opt.OptCheck.\nImport ListNotations.\nLocal Open Scope string_scope.\n";
     let mut out = Out { shards: Shards::new(Path::new(&out_dir), prelude, 40), stats: Stats::default(), distinct: HashSet::new(), samples: vec![],
                         dump: if dump_path.is_some() { Some(String::new()) } else { None }, coq };
     let mut rng = Rng::new(seed);
@@ -900,6 +1044,11 @@ fn run(args: &[String]) -> i32 {
     let mut srng = rng.fork();
     for (i, specs) in corpus_scan_specs().into_iter().enumerate() { scan_fixed(&specs, 1000 + i, &mut out); }
     for i in 0..n_scan_sets { gen_scan_cases(&mut srng, i, &mut out); }
+    // KReSet / KHoist
+    let mut mrng = rng.fork();
+    for i in 0..n / 8 { gen_or_matches_case(&mut mrng, i, &mut out); }
+    let mut hrng = rng.fork();
+    for i in 0..n / 8 { gen_hoist_case(&mut hrng, i, &mut out); }
 
     out.shards.flush();
     if let Some(p) = dump_path { std::fs::write(p, out.dump.clone().unwrap_or_default().as_bytes()).unwrap(); }
